@@ -230,6 +230,14 @@ namespace foonathan
                 return arena_.owns(ptr);
             }
 
+#ifdef FOONATHAN_MEMORY_VERIF
+            // verification hook: read-only structural self check of the free list
+            const char* verif_walk(std::size_t& reachable) const noexcept
+            {
+                return free_list_.verif_walk(reachable);
+            }
+#endif
+
         private:
             allocator_info info() const noexcept
             {
